@@ -109,6 +109,22 @@ package starlark
 //@   prop C10
 //@   nopanic
 //@   ensures (val(x) < 0 ==> result == -1) && (val(x) == 0 ==> result == 0) && (val(x) > 0 ==> result == 1)
+// Int.Hash is a function of the mathematical value alone (the representation is canonical)
+//@ specfn inthash(v int) int = wrapu32(12582917 * wrapu32(ite(fits32(v), wrapu64(v), mod(abs(v), 18446744073709551616)) + 3))
+//@ func Int.Hash
+//@   prop C11
+//@   nopanic
+//@   results h err
+//@   ensures err == nil
+//@   ensures fn_of_value: h == inthash(val(i))
+// a Float equal to an Int (finite, integral, same value) hashes like that Int
+//@ func Float.Hash
+//@   prop C11
+//@   nopanic
+//@   results h err
+//@   ensures err == nil
+//@   ensures equal_int_same_hash: isFinite(f) && isIntegral(f) ==> h == inthash(trunc(f))
+//@   ensures zero_signs: f == 0.0 ==> h == inthash(0)
 //@ func Int.Cmp
 //@   prop C10 C11
 //@   requires typeis(v, Int)
@@ -314,8 +330,18 @@ package starlark
 //@   prop C06
 //@   modifies List.itercount, hashtable.itercount, proto.MapField.itercount, proto.RepeatedField.itercount, g_open
 //@   ensures g_open == old(g_open) - 1
+// The sequence an iterator yields is fixed when it is created: itseq(it, j) for j < itlen(it);
+// iter.pos[it][0] counts the elements already yielded (ghost; assumed of every implementation).
+//@ ghostarray iter.pos int
+//@ specfn itseq(it ref, j int) iface
+//@ specfn itlen(it ref) int
+//@ specfn ipos(it ref) int = gelem(iter.pos, it, 0)
+// occ(it, lo, hi, c): a key of ==-class c is among the elements number lo..hi-1 the iterator yields
+//@ specfn rec occ(it ref, lo int, hi int, c int) bool = ite(hi <= lo, false, occ(it, lo, hi - 1, c) || kcl(itseq(it, hi - 1)) == c)
 //@ func Iterator.Next
 //@   modifies *p
+//@   ghostmod $ghost:iter.pos[]
+//@   abstraction yields_in_order: gonly(iter.pos, refof(self)) && 0 <= old(ipos(refof(self))) && old(ipos(refof(self))) <= itlen(refof(self)) && (result <==> old(ipos(refof(self))) < itlen(refof(self))) && (result ==> *p == itseq(refof(self), old(ipos(refof(self)))) && ipos(refof(self)) == old(ipos(refof(self))) + 1) && (!result ==> ipos(refof(self)) == old(ipos(refof(self))))
 //@ func Iterate
 //@   prop C06
 //@   modifies List.itercount, hashtable.itercount, proto.MapField.itercount, proto.RepeatedField.itercount, g_open
@@ -571,11 +597,40 @@ package starlark
 //@   prop C08
 //@   bodyensures 1 positional_recorded: gelem(intset.has, defined, rangeindex + 1)
 
+// ---- C12, layer 2: the ordered-association-list view of a hashtable.
+// Ghost view: gmem[h][c] -- a key of ==-class c is in h; gpos[h][c] -- its position in iteration
+// order; gkey[h][i], gvl[h][i] -- key and value at position i; entry.gown -- the table an entry
+// belongs to. kcl(k) is the ==-class of a hashable key (C11: == is an equivalence and equal keys
+// hash alike). That insert/lookup/delete/clear implement this view ("abstraction" clauses) and that
+// the entry list spells it out ("repinv") is ASSUMED here -- it is what the bounded stand-in
+// bounded/C12_hashtable checks -- and everything built from these operations is verified on top.
+//@ specfn kcl(k iface) int
+//@ specfn hashable(k iface) bool
+//@ ghostarray hashtable.gmem bool
+//@ ghostarray hashtable.gpos int
+//@ ghostarray hashtable.gkey iface
+//@ ghostarray hashtable.gvl iface
+//@ ghostfield go.starlark.net/starlark.entry.gown *hashtable
+//@ specfn M(h ref, c int) bool = gelem(hashtable.gmem, h, c)
+//@ specfn P(h ref, c int) int = gelem(hashtable.gpos, h, c)
+//@ specfn K(h ref, i int) iface = gelem(hashtable.gkey, h, i)
+//@ specfn V(h ref, i int) iface = gelem(hashtable.gvl, h, i)
+// separation: the buckets and entries of a table are private to it, so an operation on table h
+// leaves every other table and the entries it owns as they were
+//@ specfn others_untouched(h ref) bool = forallref(h2, *hashtable, h2 != h || isnil(h) ==> h2.len == old(h2.len) && h2.head == old(h2.head)) && forallref(e, *entry, (old(e.gown) != h && old(e.gown) != nil) || isnil(h) ==> e.gown == old(e.gown) && e.key == old(e.key) && e.value == old(e.value) && e.next == old(e.next))
+//@ repinv hashtable: (self.head == nil <==> self.len == 0) && (self.head != nil ==> self.head.gown == self && M(self, kcl(self.head.key)) && P(self, kcl(self.head.key)) == 0) && forall(i, 0, self.len, M(self, kcl(K(self, i))) && P(self, kcl(K(self, i))) == i) && forallint(c, M(self, c) ==> 0 <= P(self, c) && P(self, c) < self.len && kcl(K(self, P(self, c))) == c)
+//@ repinv entry: self.gown != nil && hashable(self.key) && M(self.gown, kcl(self.key)) && K(self.gown, P(self.gown, kcl(self.key))) == self.key && V(self.gown, P(self.gown, kcl(self.key))) == self.value && 0 <= P(self.gown, kcl(self.key)) && P(self.gown, kcl(self.key)) < self.gown.len && (self.next == nil <==> P(self.gown, kcl(self.key)) == self.gown.len - 1) && (self.next != nil ==> self.next.gown == self.gown && M(self.gown, kcl(self.next.key)) && P(self.gown, kcl(self.next.key)) == P(self.gown, kcl(self.key)) + 1) && (self.gown.head == self <==> P(self.gown, kcl(self.key)) == 0)
+
 // ---- hashtable local lemmas (C12). The allocation order gives a cheap handle on staleness:
 // the current table's array and every overflow bucket hanging off it are at least as new as
 // the table; anything found in a table that grow() has replaced is older.
 //@ func hashtable.insert
 //@   prop C12
+//@   ghostmod $ghost:hashtable.gmem[], $ghost:hashtable.gpos[], $ghost:hashtable.gkey[], $ghost:hashtable.gvl[], $ghost:entry.gown
+//@   abstraction assoc_insert_fail: err != nil ==> ht.len == old(ht.len) && gsame(hashtable.gmem) && gsame(hashtable.gpos) && gsame(hashtable.gkey) && gsame(hashtable.gvl) && others_untouched(nil)
+//@   abstraction assoc_insert_ok_if: hashable(k) && !old(ht.frozen) && old(ht.itercount) == 0 ==> err == nil
+//@   abstraction assoc_insert_update: err == nil && old(M(ht, kcl(k))) ==> ht.len == old(ht.len) && gsame(hashtable.gmem) && gsame(hashtable.gpos) && gsame(hashtable.gkey) && gupdate(hashtable.gvl, ht, old(P(ht, kcl(k))), v) && forallint(c, c != kcl(k) && old(M(ht, c)) ==> old(P(ht, c)) != old(P(ht, kcl(k)))) && others_untouched(ht)
+//@   abstraction assoc_insert_new: err == nil && !old(M(ht, kcl(k))) ==> ht.len == old(ht.len) + 1 && gupdate(hashtable.gmem, ht, kcl(k), true) && gupdate(hashtable.gpos, ht, kcl(k), old(ht.len)) && gupdate(hashtable.gkey, ht, old(ht.len), k) && gupdate(hashtable.gvl, ht, old(ht.len), v) && forallint(c, old(M(ht, c)) ==> 0 <= old(P(ht, c)) && old(P(ht, c)) < old(ht.len)) && others_untouched(ht)
 //@   invariant 1 h != 0 && (!isnil(old(ht.table)) ==> !isnil(ht.table) && rootof(ht.table) >= old(rootof(ht.table))) && (old(!ht.frozen && ht.itercount == 0) ==> !ht.frozen && ht.itercount == 0)
 //@   invariant 2 h != 0 && p != nil && rootof(p) >= rootof(ht.table) && (insert == nil || rootof(insert) >= rootof(ht.table)) && (!isnil(old(ht.table)) ==> !isnil(ht.table) && rootof(ht.table) >= old(rootof(ht.table))) && (old(!ht.frozen && ht.itercount == 0) ==> !ht.frozen && ht.itercount == 0)
 //@   invariant 3 h != 0 && p != nil && rootof(p) >= rootof(ht.table) && (insert == nil || rootof(insert) >= rootof(ht.table)) && (!isnil(old(ht.table)) ==> !isnil(ht.table) && rootof(ht.table) >= old(rootof(ht.table))) && (old(!ht.frozen && ht.itercount == 0) ==> !ht.frozen && ht.itercount == 0)
@@ -587,9 +642,16 @@ package starlark
 // "not found" only after the whole bucket chain has been walked
 //@ func hashtable.lookup
 //@   prop C12
+//@   abstraction assoc_lookup: err == nil ==> (found <==> M(ht, kcl(k))) && (found ==> v == V(ht, P(ht, kcl(k))))
+//@   abstraction assoc_lookup_ok_if: hashable(k) ==> err == nil
 //@   assert /return None, false, nil .. not found/ whole_chain_scanned: p == nil
 //@ func hashtable.delete
 //@   prop C12
+//@   ghostmod $ghost:hashtable.gmem[], $ghost:hashtable.gpos[], $ghost:hashtable.gkey[], $ghost:hashtable.gvl[], $ghost:entry.gown
+//@   abstraction assoc_delete_fail: err != nil ==> ht.len == old(ht.len) && gsame(hashtable.gmem) && gsame(hashtable.gpos) && gsame(hashtable.gkey) && gsame(hashtable.gvl) && others_untouched(nil)
+//@   abstraction assoc_delete_ok_if: hashable(k) && !old(ht.frozen) && old(ht.itercount) == 0 ==> err == nil
+//@   abstraction assoc_delete_absent: err == nil && !old(M(ht, kcl(k))) ==> !found && ht.len == old(ht.len) && gsame(hashtable.gmem) && gsame(hashtable.gpos) && gsame(hashtable.gkey) && gsame(hashtable.gvl) && others_untouched(nil)
+//@   abstraction assoc_delete_present: err == nil && old(M(ht, kcl(k))) ==> found && v == old(V(ht, P(ht, kcl(k)))) && ht.len == old(ht.len) - 1 && gupdate(hashtable.gmem, ht, kcl(k), false) && gonly(hashtable.gpos, ht) && gonly(hashtable.gkey, ht) && gonly(hashtable.gvl, ht) && forallint(c, c != kcl(k) ==> P(ht, c) == old(P(ht, c)) - ite(old(P(ht, c)) > old(P(ht, kcl(k))), 1, 0)) && forallint(c, c != kcl(k) && old(M(ht, c)) ==> old(P(ht, c)) != old(P(ht, kcl(k)))) && forall(i, 0, old(P(ht, kcl(k))), K(ht, i) == old(K(ht, i)) && V(ht, i) == old(V(ht, i))) && forall(i, old(P(ht, kcl(k))), ht.len, K(ht, i) == old(K(ht, i + 1)) && V(ht, i) == old(V(ht, i + 1))) && others_untouched(ht)
 //@   assert /return None, false, nil .. not found/ whole_chain_scanned: p == nil
 
 // ---- determinism (C03): listings derived from Go maps are sorted before they are exposed;
@@ -614,3 +676,132 @@ package starlark
 //@   prop C02 C13
 //@   nopanic
 //@   ensures ok ==> x >= 0
+
+// ---- sorted (C11, C13): the result is the stable arrangement produced by sort.Stable, by the
+// key comparator (reversed iff reverse=True), with nothing rearranged afterwards. Swap keeps a
+// value paired with its key; Less never writes the elements.
+//@ func sortSlice.Swap
+//@   prop C11 C13
+//@   requires s != nil && 0 <= i && i < len(s.values) && 0 <= j && j < len(s.values)
+//@   requires s.keys != nil ==> len(s.keys) == len(s.values) && rootof(s.keys) != rootof(s.values)
+//@   nopanic
+//@   modifies s.values[*], s.keys[*]
+//@   ensures values_swapped: s.values[i] == old(s.values[j]) && s.values[j] == old(s.values[i])
+//@   ensures values_rest: forall(k, 0, len(s.values), k != i && k != j ==> s.values[k] == old(s.values[k]))
+//@   ensures keys_swapped: s.keys != nil ==> s.keys[i] == old(s.keys[j]) && s.keys[j] == old(s.keys[i])
+//@   ensures keys_rest: s.keys != nil ==> forall(k, 0, len(s.keys), k != i && k != j ==> s.keys[k] == old(s.keys[k]))
+//@ func sortSlice.Less
+//@   prop C11 C13
+//@   modifies s.err
+//@ func sortSlice.Len
+//@   prop C11 C13
+//@   pure
+//@   ensures result == len(s.values)
+//@ func sorted
+//@   prop C11 C13
+//@   assert /return NewList\(slice.values\), slice.err/ stable_order: ite(reverse, stable_desc(slice, memid(Value)), stable_asc(slice, memid(Value)))
+
+// ---- C12, layer 2: operations derived from insert/lookup/delete (verified against the view)
+//@ func Set.Insert
+//@   prop C12
+//@   ensures fail: err != nil ==> s.ht.len == old(s.ht.len) && gsame(hashtable.gmem) && gsame(hashtable.gpos) && gsame(hashtable.gkey)
+//@   ensures ok_if: hashable(k) && !old(s.ht.frozen) && old(s.ht.itercount) == 0 ==> err == nil
+//@   ensures present: err == nil && old(M(sub(s, 0), kcl(k))) ==> s.ht.len == old(s.ht.len) && gsame(hashtable.gmem) && gsame(hashtable.gpos) && gsame(hashtable.gkey)
+//@   ensures appended: err == nil && !old(M(sub(s, 0), kcl(k))) ==> s.ht.len == old(s.ht.len) + 1 && gupdate(hashtable.gmem, sub(s, 0), kcl(k), true) && gupdate(hashtable.gpos, sub(s, 0), kcl(k), old(s.ht.len)) && gupdate(hashtable.gkey, sub(s, 0), old(s.ht.len), k) && forallint(c, old(M(sub(s, 0), c)) ==> 0 <= old(P(sub(s, 0), c)) && old(P(sub(s, 0), c)) < old(s.ht.len))
+//@   ensures others_keep_entries: others_untouched(sub(s, 0))
+//@   ensures mutability_kept: old(!s.ht.frozen && s.ht.itercount == 0) ==> !s.ht.frozen && s.ht.itercount == 0
+//@ func Set.Has
+//@   prop C12
+//@   ensures err == nil ==> (found <==> M(sub(s, 0), kcl(k)))
+//@   ensures hashable(k) ==> err == nil
+//@ func Set.clone
+//@   prop C12
+//@   uses repinv
+//@   invariant 1 set != nil && freshobj(set) && set != s && (e != nil ==> e.gown == sub(s, 0) && M(sub(s, 0), kcl(e.key)) && P(sub(s, 0), kcl(e.key)) == set.ht.len) && (e == nil ==> set.ht.len == s.ht.len) && forallint(c, M(sub(set, 0), c) <==> (M(sub(s, 0), c) && P(sub(s, 0), c) < set.ht.len)) && forallint(c, M(sub(set, 0), c) ==> P(sub(set, 0), c) == P(sub(s, 0), c)) && !set.ht.frozen && set.ht.itercount == 0 && gonly(hashtable.gmem, sub(set, 0)) && gonly(hashtable.gpos, sub(set, 0)) && gonly(hashtable.gkey, sub(set, 0)) && others_untouched(sub(set, 0))
+//@   ensures copy: result != nil && freshobj(result) && !result.ht.frozen && result.ht.itercount == 0 && result.ht.len == s.ht.len && forallint(c, M(sub(result, 0), c) <==> M(sub(s, 0), c)) && forallint(c, M(sub(s, 0), c) ==> P(sub(result, 0), c) == P(sub(s, 0), c))
+//@   ensures rest_untouched: gonly(hashtable.gmem, sub(result, 0)) && gonly(hashtable.gpos, sub(result, 0)) && gonly(hashtable.gkey, sub(result, 0)) && others_untouched(sub(result, 0))
+//@ func Set.Delete
+//@   prop C12
+//@   ensures fail: err != nil ==> s.ht.len == old(s.ht.len) && gsame(hashtable.gmem) && gsame(hashtable.gpos) && gsame(hashtable.gkey)
+//@   ensures ok_if: hashable(k) && !old(s.ht.frozen) && old(s.ht.itercount) == 0 ==> err == nil
+//@   ensures absent: err == nil && !old(M(sub(s, 0), kcl(k))) ==> !found && s.ht.len == old(s.ht.len) && gsame(hashtable.gmem) && gsame(hashtable.gpos) && gsame(hashtable.gkey)
+//@   ensures removed: err == nil && old(M(sub(s, 0), kcl(k))) ==> found && s.ht.len == old(s.ht.len) - 1 && gupdate(hashtable.gmem, sub(s, 0), kcl(k), false) && gonly(hashtable.gpos, sub(s, 0)) && gonly(hashtable.gkey, sub(s, 0)) && forallint(c, c != kcl(k) ==> P(sub(s, 0), c) == old(P(sub(s, 0), c)) - ite(old(P(sub(s, 0), c)) > old(P(sub(s, 0), kcl(k))), 1, 0)) && forallint(c, c != kcl(k) && old(M(sub(s, 0), c)) ==> old(P(sub(s, 0), c)) != old(P(sub(s, 0), kcl(k))))
+//@   ensures others_keep_entries: others_untouched(sub(s, 0))
+//@   ensures mutability_kept: old(!s.ht.frozen && s.ht.itercount == 0) ==> !s.ht.frozen && s.ht.itercount == 0
+// x | y: the elements of x in their order, then the new elements of y
+//@ func Set.Union
+//@   prop C12
+//@   invariant 1 set != nil && set != s && freshobj(set) && !set.ht.frozen && set.ht.itercount == 0 && old(ipos(refof(iter))) <= ipos(refof(iter)) && forallint(c, M(sub(set, 0), c) <==> (old(M(sub(s, 0), c)) || occ(refof(iter), old(ipos(refof(iter))), ipos(refof(iter)), c))) && forallint(c, old(M(sub(s, 0), c)) ==> P(sub(set, 0), c) == old(P(sub(s, 0), c)))
+//@   ensures members: err == nil ==> typeis(result0, *Set) && forallint(c, M(sub(as(result0, *Set), 0), c) <==> (old(M(sub(s, 0), c)) || occ(refof(iter), old(ipos(refof(iter))), itlen(refof(iter)), c)))
+//@   ensures left_operand_first: err == nil ==> forallint(c, old(M(sub(s, 0), c)) ==> P(sub(as(result0, *Set), 0), c) == old(P(sub(s, 0), c)))
+//@   ensures new_set: err == nil ==> as(result0, *Set) != s && freshobj(as(result0, *Set))
+// x & y: the elements of x that are in y, in the order of x (doc/spec.md: "preserving the element order of the left operand")
+//@ func Set.Intersection
+//@   prop C12
+//@   uses repinv
+//@   invariant 1 intersect != nil && intersect != s && freshobj(intersect) && !intersect.ht.frozen && intersect.ht.itercount == 0 && old(ipos(refof(other))) <= ipos(refof(other)) && gonly(hashtable.gmem, sub(intersect, 0)) && gonly(hashtable.gpos, sub(intersect, 0)) && gonly(hashtable.gkey, sub(intersect, 0)) && forallint(c, M(sub(intersect, 0), c) <==> (old(M(sub(s, 0), c)) && occ(refof(other), old(ipos(refof(other))), ipos(refof(other)), c)))
+//@   invariant 1 left_operand_order: forallint(c, forallint(d, M(sub(intersect, 0), c) && M(sub(intersect, 0), d) && old(M(sub(s, 0), c)) && old(M(sub(s, 0), d)) && old(P(sub(s, 0), c)) < old(P(sub(s, 0), d)) ==> P(sub(intersect, 0), c) < P(sub(intersect, 0), d)))
+//@   ensures members: err == nil ==> typeis(result0, *Set) && forallint(c, M(sub(as(result0, *Set), 0), c) <==> (old(M(sub(s, 0), c)) && occ(refof(other), old(ipos(refof(other))), itlen(refof(other)), c)))
+//@   ensures left_operand_order: err == nil ==> forallint(c, forallint(d, M(sub(as(result0, *Set), 0), c) && M(sub(as(result0, *Set), 0), d) && old(M(sub(s, 0), c)) && old(M(sub(s, 0), d)) && old(P(sub(s, 0), c)) < old(P(sub(s, 0), d)) ==> P(sub(as(result0, *Set), 0), c) < P(sub(as(result0, *Set), 0), d)))
+//@   ensures new_set: err == nil ==> as(result0, *Set) != s && freshobj(as(result0, *Set))
+// x - y: the elements of x that are not in y, in the order of x
+//@ func Set.Difference
+//@   prop C12
+//@   invariant 1 diff != nil && diff != s && freshobj(diff) && !diff.ht.frozen && diff.ht.itercount == 0 && old(ipos(refof(other))) <= ipos(refof(other)) && gonly(hashtable.gmem, sub(diff, 0)) && gonly(hashtable.gpos, sub(diff, 0)) && gonly(hashtable.gkey, sub(diff, 0)) && forallint(c, M(sub(diff, 0), c) <==> (old(M(sub(s, 0), c)) && !occ(refof(other), old(ipos(refof(other))), ipos(refof(other)), c))) && forallint(c, forallint(d, M(sub(diff, 0), c) && M(sub(diff, 0), d) && old(M(sub(s, 0), c)) && old(M(sub(s, 0), d)) && old(P(sub(s, 0), c)) < old(P(sub(s, 0), d)) ==> P(sub(diff, 0), c) < P(sub(diff, 0), d)))
+//@   ensures members: err == nil ==> typeis(result0, *Set) && forallint(c, M(sub(as(result0, *Set), 0), c) <==> (old(M(sub(s, 0), c)) && !occ(refof(other), old(ipos(refof(other))), itlen(refof(other)), c)))
+//@   ensures left_operand_order: err == nil ==> forallint(c, forallint(d, M(sub(as(result0, *Set), 0), c) && M(sub(as(result0, *Set), 0), d) && old(M(sub(s, 0), c)) && old(M(sub(s, 0), d)) && old(P(sub(s, 0), c)) < old(P(sub(s, 0), d)) ==> P(sub(as(result0, *Set), 0), c) < P(sub(as(result0, *Set), 0), d)))
+//@   ensures new_set: err == nil ==> as(result0, *Set) != s && freshobj(as(result0, *Set))
+// x ^ y: the elements of x that are not in y, in the order of x, then the elements of y that are not in x
+//@ func Set.SymmetricDifference
+//@   prop C12
+//@   invariant 1 diff != nil && diff != s && freshobj(diff) && !diff.ht.frozen && diff.ht.itercount == 0 && old(ipos(refof(other))) <= ipos(refof(other)) && gonly(hashtable.gmem, sub(diff, 0)) && gonly(hashtable.gpos, sub(diff, 0)) && gonly(hashtable.gkey, sub(diff, 0)) && forallint(c, M(sub(diff, 0), c) <==> (old(M(sub(s, 0), c)) != occ(refof(other), old(ipos(refof(other))), ipos(refof(other)), c))) && forallint(c, forallint(d, M(sub(diff, 0), c) && M(sub(diff, 0), d) && old(M(sub(s, 0), c)) && old(M(sub(s, 0), d)) && old(P(sub(s, 0), c)) < old(P(sub(s, 0), d)) ==> P(sub(diff, 0), c) < P(sub(diff, 0), d))) && forallint(c, forallint(d, M(sub(diff, 0), c) && M(sub(diff, 0), d) && old(M(sub(s, 0), c)) && !old(M(sub(s, 0), d)) ==> P(sub(diff, 0), c) < P(sub(diff, 0), d)))
+//@   ensures members: err == nil ==> typeis(result0, *Set) && forallint(c, M(sub(as(result0, *Set), 0), c) <==> (old(M(sub(s, 0), c)) != occ(refof(other), old(ipos(refof(other))), itlen(refof(other)), c)))
+//@   ensures left_operand_order: err == nil ==> forallint(c, forallint(d, M(sub(as(result0, *Set), 0), c) && M(sub(as(result0, *Set), 0), d) && old(M(sub(s, 0), c)) && old(M(sub(s, 0), d)) && old(P(sub(s, 0), c)) < old(P(sub(s, 0), d)) ==> P(sub(as(result0, *Set), 0), c) < P(sub(as(result0, *Set), 0), d)))
+//@   ensures left_operand_first: err == nil ==> forallint(c, forallint(d, M(sub(as(result0, *Set), 0), c) && M(sub(as(result0, *Set), 0), d) && old(M(sub(s, 0), c)) && !old(M(sub(s, 0), d)) ==> P(sub(as(result0, *Set), 0), c) < P(sub(as(result0, *Set), 0), d)))
+//@   ensures new_set: err == nil ==> as(result0, *Set) != s && freshobj(as(result0, *Set))
+// ht.addAll(other): the entries of other are inserted in other's order -- existing keys keep their
+// place (their value is overwritten), new keys are appended
+//@ specfn cursor(h ref, n int, e *entry) int = ite(e == nil, n, P(h, kcl(e.key)))
+//@ func hashtable.addAll
+//@   prop C12
+//@   uses repinv
+//@   invariant 1 ht != other ==> (e != nil ==> e.gown == other && M(other, kcl(e.key))) && other.len == old(other.len) && 0 <= cursor(other, other.len, e) && gonly(hashtable.gmem, ht) && gonly(hashtable.gpos, ht) && gonly(hashtable.gkey, ht) && gonly(hashtable.gvl, ht) && others_untouched(ht) && (old(!ht.frozen && ht.itercount == 0) ==> !ht.frozen && ht.itercount == 0) && forallint(c, M(ht, c) <==> (old(M(ht, c)) || (M(other, c) && P(other, c) < cursor(other, other.len, e)))) && forallint(c, old(M(ht, c)) ==> P(ht, c) == old(P(ht, c)))
+//@   invariant 1 new_keys_in_operand_order: ht != other ==> forallint(c, forallint(d, M(ht, c) && M(ht, d) && !old(M(ht, c)) && !old(M(ht, d)) && P(other, c) < P(other, d) ==> P(ht, c) < P(ht, d))) && forallint(c, forallint(d, old(M(ht, c)) && M(ht, d) && !old(M(ht, d)) ==> P(ht, c) < P(ht, d)))
+//@   invariant 1 values: ht != other ==> forallint(c, M(other, c) && P(other, c) < cursor(other, other.len, e) ==> V(ht, P(ht, c)) == V(other, P(other, c))) && forallint(c, old(M(ht, c)) && !(M(other, c) && P(other, c) < cursor(other, other.len, e)) ==> V(ht, P(ht, c)) == old(V(ht, P(ht, c))))
+//@   ensures cannot_fail_if_mutable: ht != other && old(!ht.frozen && ht.itercount == 0) ==> result == nil
+//@   ensures members: ht != other && result == nil ==> forallint(c, M(ht, c) <==> (old(M(ht, c)) || old(M(other, c))))
+//@   ensures existing_keys_keep_place: ht != other && result == nil ==> forallint(c, old(M(ht, c)) ==> P(ht, c) == old(P(ht, c)))
+//@   ensures new_keys_in_operand_order: ht != other && result == nil ==> forallint(c, forallint(d, M(ht, c) && M(ht, d) && !old(M(ht, c)) && !old(M(ht, d)) && old(P(other, c)) < old(P(other, d)) ==> P(ht, c) < P(ht, d))) && forallint(c, forallint(d, old(M(ht, c)) && M(ht, d) && !old(M(ht, d)) ==> P(ht, c) < P(ht, d)))
+//@   ensures values: ht != other && result == nil ==> forallint(c, old(M(other, c)) ==> V(ht, P(ht, c)) == old(V(other, P(other, c)))) && forallint(c, old(M(ht, c)) && !old(M(other, c)) ==> V(ht, P(ht, c)) == old(V(ht, P(ht, c))))
+//@   ensures rest_untouched: ht != other ==> gonly(hashtable.gmem, ht) && gonly(hashtable.gpos, ht) && gonly(hashtable.gkey, ht) && gonly(hashtable.gvl, ht) && others_untouched(ht) && (old(!ht.frozen && ht.itercount == 0) ==> !ht.frozen && ht.itercount == 0)
+// x | y on dicts: a new dict with the keys of x in their order, then the keys only y has in y's
+// order; a key of both takes y's value
+//@ func Dict.Union
+//@   prop C12
+//@   uses repinv
+//@   ensures new_dict: result != nil && result != x && result != y && freshobj(result)
+//@   ensures members: forallint(c, M(sub(result, 0), c) <==> (old(M(sub(x, 0), c)) || old(M(sub(y, 0), c))))
+//@   ensures left_operand_order: forallint(c, forallint(d, old(M(sub(x, 0), c)) && old(M(sub(x, 0), d)) && old(P(sub(x, 0), c)) < old(P(sub(x, 0), d)) ==> P(sub(result, 0), c) < P(sub(result, 0), d)))
+//@   ensures left_operand_first: forallint(c, forallint(d, old(M(sub(x, 0), c)) && !old(M(sub(x, 0), d)) && old(M(sub(y, 0), d)) ==> P(sub(result, 0), c) < P(sub(result, 0), d)))
+//@   ensures right_operand_order: forallint(c, forallint(d, !old(M(sub(x, 0), c)) && !old(M(sub(x, 0), d)) && old(M(sub(y, 0), c)) && old(M(sub(y, 0), d)) && old(P(sub(y, 0), c)) < old(P(sub(y, 0), d)) ==> P(sub(result, 0), c) < P(sub(result, 0), d)))
+//@   ensures values: forallint(c, old(M(sub(y, 0), c)) ==> V(sub(result, 0), P(sub(result, 0), c)) == old(V(sub(y, 0), P(sub(y, 0), c)))) && forallint(c, old(M(sub(x, 0), c)) && !old(M(sub(y, 0), c)) ==> V(sub(result, 0), P(sub(result, 0), c)) == old(V(sub(x, 0), P(sub(x, 0), c))))
+//@   ensures operands_untouched: gonly(hashtable.gmem, sub(result, 0)) && gonly(hashtable.gpos, sub(result, 0)) && gonly(hashtable.gkey, sub(result, 0)) && gonly(hashtable.gvl, sub(result, 0))
+//@ func Dict.SetKey
+//@   prop C12
+//@   ensures fail: err != nil ==> d.ht.len == old(d.ht.len) && gsame(hashtable.gmem) && gsame(hashtable.gpos) && gsame(hashtable.gkey) && gsame(hashtable.gvl)
+//@   ensures ok_if: hashable(k) && !old(d.ht.frozen) && old(d.ht.itercount) == 0 ==> err == nil
+//@   ensures update_keeps_place: err == nil && old(M(sub(d, 0), kcl(k))) ==> d.ht.len == old(d.ht.len) && gsame(hashtable.gmem) && gsame(hashtable.gpos) && gsame(hashtable.gkey) && gupdate(hashtable.gvl, sub(d, 0), old(P(sub(d, 0), kcl(k))), v)
+//@   ensures new_key_last: err == nil && !old(M(sub(d, 0), kcl(k))) ==> d.ht.len == old(d.ht.len) + 1 && gupdate(hashtable.gmem, sub(d, 0), kcl(k), true) && gupdate(hashtable.gpos, sub(d, 0), kcl(k), old(d.ht.len)) && gupdate(hashtable.gkey, sub(d, 0), old(d.ht.len), k) && gupdate(hashtable.gvl, sub(d, 0), old(d.ht.len), v)
+//@ func Dict.Get
+//@   prop C12
+//@   ensures err == nil ==> (found <==> M(sub(d, 0), kcl(k))) && (found ==> v == V(sub(d, 0), P(sub(d, 0), kcl(k))))
+//@ func Dict.Delete
+//@   prop C12
+//@   ensures fail: err != nil ==> d.ht.len == old(d.ht.len) && gsame(hashtable.gmem) && gsame(hashtable.gpos) && gsame(hashtable.gkey) && gsame(hashtable.gvl)
+//@   ensures absent: err == nil && !old(M(sub(d, 0), kcl(k))) ==> !found && d.ht.len == old(d.ht.len) && gsame(hashtable.gmem) && gsame(hashtable.gpos) && gsame(hashtable.gkey) && gsame(hashtable.gvl)
+//@   ensures removed: err == nil && old(M(sub(d, 0), kcl(k))) ==> found && v == old(V(sub(d, 0), P(sub(d, 0), kcl(k)))) && d.ht.len == old(d.ht.len) - 1 && gupdate(hashtable.gmem, sub(d, 0), kcl(k), false) && forallint(c, c != kcl(k) ==> P(sub(d, 0), c) == old(P(sub(d, 0), c)) - ite(old(P(sub(d, 0), c)) > old(P(sub(d, 0), kcl(k))), 1, 0))
+//@ func Set.InsertAll
+//@   prop C12
+//@   invariant 1 old(ipos(refof(iter))) <= ipos(refof(iter)) && gonly(hashtable.gmem, sub(s, 0)) && gonly(hashtable.gpos, sub(s, 0)) && forallint(c, M(sub(s, 0), c) <==> (old(M(sub(s, 0), c)) || occ(refof(iter), old(ipos(refof(iter))), ipos(refof(iter)), c))) && forallint(c, old(M(sub(s, 0), c)) ==> P(sub(s, 0), c) == old(P(sub(s, 0), c)))
+//@   ensures members: result == nil ==> forallint(c, M(sub(s, 0), c) <==> (old(M(sub(s, 0), c)) || occ(refof(iter), old(ipos(refof(iter))), itlen(refof(iter)), c)))
+//@   ensures existing_keep_place: result == nil ==> forallint(c, old(M(sub(s, 0), c)) ==> P(sub(s, 0), c) == old(P(sub(s, 0), c)))
